@@ -223,8 +223,8 @@ example : ceval (env1 ⟨.u16, 0x1234⟩) (.cast .u8 (.hole 0)) = some ⟨.u8, 0
 /-- What is still NOT proved about whole programs: the atomic statements are
 opaque in `stmt_lowering_correct` (their stored values are the subject of
 `compound_assign_correct_*` and `lower_correct`, but the composition "every
-assignment of a body computes the same store update" is not assembled into one
-theorem over a C memory model); struct layout (private_impl / private_data),
+assignment of a body computes the same store update" is not assembled into a
+single statement over a C memory model); struct layout (private_impl / private_data),
 the function prologue (receiver / magic / argument checks, zero-initialised
 locals) and calls are covered by the differential execution of
 harness/cmd/c04 only.  This `_partial` records two facts about assignments that
